@@ -110,7 +110,20 @@ pub struct World {
     pub root: PathBuf,
 }
 
+/// While set, worlds are created below a directory private to this process: the constant
+/// warm-up histories run in every worker at the same time and must not share directories.
+pub static WARM_UP_SCRATCH: std::sync::atomic::AtomicBool = std::sync::atomic::AtomicBool::new(false);
+
 pub fn scratch_base() -> PathBuf {
+    let base = scratch_root();
+    if WARM_UP_SCRATCH.load(std::sync::atomic::Ordering::Relaxed) {
+        base.join(format!("warm-{}", std::process::id()))
+    } else {
+        base
+    }
+}
+
+fn scratch_root() -> PathBuf {
     if let Ok(p) = std::env::var("VERIF_SCRATCH") {
         return PathBuf::from(p);
     }
